@@ -36,7 +36,7 @@ func c12Body(idx int, c any) map[string]any {
 // HarnessC12_doc: document-level $repeat: n, map and list documents,
 // optionally with an upper layer that overrides the count.
 func HarnessC12_doc() {
-	n, k := c12Count(5)
+	n, k := c12Count(5 + 7*vTier())
 	c := ndScalarNN()
 	var layers []any
 	listDoc := ndChoice(2) == 1
@@ -78,7 +78,7 @@ func HarnessC12_doc() {
 
 // HarnessC12_nested: $repeat inside a list entry and inside a map entry.
 func HarnessC12_nested() {
-	n, k := c12Count(4)
+	n, k := c12Count(4 + 6*vTier())
 	c := ndScalarNN()
 	inList := ndChoice(2) == 1
 	var doc, want map[string]any
@@ -114,7 +114,7 @@ func HarnessC12_nested() {
 func HarnessC12_named() {
 	max := 2
 	if vTier() > 0 {
-		max = 3
+		max = 4
 	}
 	n1, k1 := c12Count(max)
 	n2, k2 := c12Count(max)
@@ -186,8 +186,8 @@ func HarnessC12_badcount() {
 // expansion must not disturb the outer binding: uses of the outer index that
 // are evaluated before AND after the inner repeat see the outer value.
 func HarnessC12_scopes() {
-	n, kn := c12Count(2)
-	m, km := c12Count(2)
+	n, kn := c12Count(2 + 2*vTier())
+	m, km := c12Count(2 + vTier())
 	innerList := ndChoice(2) == 1
 	// the body of one outer copy; idx < 0 = template form
 	body := func(idx int) map[string]any {
